@@ -2,6 +2,7 @@
 import ast
 import copy
 import random
+from fractions import Fraction
 
 from ..gen import programs as P
 from ..oracles import codec, refsem
@@ -22,10 +23,10 @@ ASSUMPTIONS = ["a bound parameter is a literal: it is typed by its value like an
 CASE_TIMEOUT = {"quick": 40, "thorough": 120}
 
 
-def param_program(rng, cfg):
-    pg = P.PG(rng, cfg)
+def param_program(rng, cfg, pool=None):
+    pg = P.PG(rng, cfg) if pool is None else None
     for _ in range(20):
-        pr = pg.program()
+        pr = pg.program() if pool is None else pool.pop()
         ok = [i for i, (n, t) in enumerate(pr["args"]) if _bindable(t)]
         if ok:
             break
@@ -47,7 +48,7 @@ def param_program(rng, cfg):
 def _bindable(t):
     if isinstance(t, list):
         return all(_bindable(x) for x in t)
-    return t == "bool" or t.startswith("Qint")
+    return t == "bool" or t.startswith("Qint") or t == "Qchar" or (t.startswith("Qfixed") and codec.fixed_if(t)[1] <= 4)
 
 
 def domain(t, rng, limit=8):
@@ -94,6 +95,20 @@ def cases(tier, seed):
         pr["history"] = hist
         pr["kind"] = "hist"
         yield pr
+    # fixed-point and character parameters (a bound float/str is a literal of the source)
+    m = 40 if tier == "quick" else 400
+    pool = P.fixed_char_programs(rng, 12 * m) + P.mixed_fixed_programs(rng, 12 * m)
+    rng.shuffle(pool)
+    for i in range(m):
+        pr = param_program(rng, None, pool)
+        if pr is None:
+            continue
+        doms = [domain(pr["args"][i][1], rng) for i in pr["params"]]
+        vals = [[rng.choice(d) for d in doms] for _ in range(rng.randint(3, 6))]
+        pr["history"] = [["bind", v] for v in vals]
+        pr["kind"] = "hist"
+        pr["feat"] = list(pr.get("feat", [])) + ["fixed_char_param"]
+        yield pr
 
 
 CORPUS = [
@@ -120,6 +135,8 @@ CORPUS = [
 def to_py(v):
     if isinstance(v, (tuple, list)):
         return tuple(to_py(x) for x in v)
+    if isinstance(v, Fraction):
+        return float(v)  # dyadic: exact
     return v
 
 
@@ -128,6 +145,10 @@ def lift_literal(t, v):
         return tuple(lift_literal(x, y) for x, y in zip(t, v))
     if t == "bool":
         return bool(v)
+    if t == "Qchar":
+        return refsem._KC(v)
+    if t.startswith("Qfixed"):
+        return refsem._KF(float(v))
     return refsem._K(int(v))
 
 
